@@ -350,7 +350,13 @@ func (m *Mux) encError(w http.ResponseWriter, r *http.Request, err error) {
 	w.Header().Set("Content-Type", accept)
 	w.WriteHeader(HTTPStatusCode(s.Code()))
 
-	b, err := c.Marshal(s.Proto())
+	p := s.Proto()
+	if p != nil && !utf8.ValidString(p.Message) {
+		// The text of an error may embed bytes of the request; a string
+		// field that is not valid UTF-8 cannot be marshalled.
+		p.Message = strings.ToValidUTF8(p.Message, "\uFFFD")
+	}
+	b, err := c.Marshal(p)
 	if err != nil {
 		panic(err) // ...
 	}
